@@ -2,6 +2,9 @@
   Helper lemmas for C08.  The primed statements are re-exported by OrbProofs/C08.lean.
 -/
 import OrbProofs.C07Lemmas
+import OrbProofs.C08Ring
+import OrbProofs.C08Counter
+import Mathlib.Tactic.NormNum
 import Mathlib.Algebra.Order.Field.Rat
 
 namespace Orb.Clip
@@ -28,12 +31,37 @@ end vocab
 
 variable {α : Type} [Field α] [LinearOrder α] [IsStrictOrderedRing α]
 
-theorem ring_total' (box : Bound α) (inp : List (Pt α)) : ∃ out, ring box inp = some out := by
-  sorry
+set_option linter.unusedSectionVars false
+set_option linter.unusedSimpArgs false
 
+theorem ring_total' (box : Bound α) (inp : List (Pt α)) : ∃ out, ring box inp = some out := by
+  cases inp with
+  | nil => exact ⟨[], rfl⟩
+  | cons f t =>
+    rw [ring_cons_eq]
+    obtain ⟨l, hl, -⟩ := chain_spec box (ptEqB f ((f :: t).getLast?.getD f)) (f :: t) conv_true
+      (fun _ _ => trivial)
+    rw [hl]
+    obtain ⟨out, ho, -⟩ := rclose_some (ptEqB f ((f :: t).getLast?.getD f)) l
+    exact ⟨out, ho⟩
+
+set_option linter.unusedVariables false in
 theorem ring_vertices_in_box' (box : Bound α) (hb : BoxOK box) (inp out : List (Pt α)) (h : ring box inp = some out) :
     ∀ v ∈ out, InBox box v := by
-  sorry
+  cases inp with
+  | nil =>
+    have : out = [] := by simpa [ring] using h.symm
+    subst this; simp
+  | cons f t =>
+    rw [ring_cons_eq] at h
+    obtain ⟨l, hl, hin⟩ := chain_spec box (ptEqB f ((f :: t).getLast?.getD f)) (f :: t) conv_true
+      (fun _ _ => trivial)
+    rw [hl] at h
+    obtain ⟨out', ho, hsub, -⟩ := rclose_some (ptEqB f ((f :: t).getLast?.getD f)) l
+    rw [ho] at h
+    cases h
+    intro v hv
+    exact (hin v (hsub v hv)).1
 
 theorem ring_vertices_on_input' (box : Bound α) (hb : BoxOK box) (inp out : List (Pt α)) (h : ring box inp = some out) :
     ∀ v ∈ out, v ∈ inp ∨ ∃ a ∈ inp, ∃ b ∈ inp, OnSeg a b v := by
@@ -41,35 +69,440 @@ theorem ring_vertices_on_input' (box : Bound α) (hb : BoxOK box) (inp out : Lis
 
 theorem ring_inside_id' (box : Bound α) (inp : List (Pt α)) (hin : ∀ v ∈ inp, InBox box v) :
     ring box inp = some inp := by
-  sorry
+  cases inp with
+  | nil => rfl
+  | cons f t =>
+    rw [ring_cons_eq]
+    have i1 : ∀ v ∈ f :: t, ((bitCode box v &&& 1) == 0) = true := fun v hv => (ins_1 box v).2 (hin v hv).1
+    have i2 : ∀ v ∈ f :: t, ((bitCode box v &&& 2) == 0) = true :=
+      fun v hv => (ins_2 box v).2 (Or.inr (hin v hv).2.1)
+    have i4 : ∀ v ∈ f :: t, ((bitCode box v &&& 4) == 0) = true := fun v hv => (ins_4 box v).2 (hin v hv).2.2.1
+    have i8 : ∀ v ∈ f :: t, ((bitCode box v &&& 8) == 0) = true :=
+      fun v hv => (ins_8 box v).2 (Or.inr (hin v hv).2.2.2)
+    rw [rpass_id box _ 1 _ (intersect_1 box) _ i1, rpass_id box _ 2 _ (intersect_2 box) _ i2,
+      rpass_id box _ 4 _ (intersect_4 box) _ i4, rpass_id box _ 8 _ (intersect_8 box) _ i8]
+    exact rclose_self f t
 
 theorem ring_disjoint_nil' (box : Bound α) (inp : List (Pt α))
     (h : (∀ v ∈ inp, v.x < box.lo.x) ∨ (∀ v ∈ inp, v.x > box.hi.x) ∨ (∀ v ∈ inp, v.y < box.lo.y) ∨ (∀ v ∈ inp, v.y > box.hi.y)) :
     ring box inp = some [] := by
-  sorry
+  cases inp with
+  | nil => rfl
+  | cons f t =>
+    rw [ring_cons_eq]
+    have key : ∀ C : Pt α → Prop, Conv C → (∀ v ∈ f :: t, C v) → (∀ v, InBox box v → C v → False) →
+        rclose (ptEqB f ((f :: t).getLast?.getD f))
+          (rpass box (ptEqB f ((f :: t).getLast?.getD f)) 8
+            (rpass box (ptEqB f ((f :: t).getLast?.getD f)) 4
+              (rpass box (ptEqB f ((f :: t).getLast?.getD f)) 2
+                (rpass box (ptEqB f ((f :: t).getLast?.getD f)) 1 (some (f :: t)))))) = some [] := by
+      intro C hC hin hno
+      obtain ⟨l, hl, hl'⟩ := chain_spec box (ptEqB f ((f :: t).getLast?.getD f)) (f :: t) hC hin
+      have : l = [] := List.eq_nil_iff_forall_not_mem.2 (fun v hv => hno v (hl' v hv).1 (hl' v hv).2)
+      rw [hl, this]; rfl
+    rcases h with h | h | h | h
+    · exact key _ (conv_x_lt box.lo.x) h (fun v hb hc => absurd hb.1 (not_le.2 hc))
+    · exact key _ (conv_lt_x box.hi.x) h (fun v hb hc => absurd hb.2.1 (not_le.2 hc))
+    · exact key _ (conv_y_lt box.lo.y) h (fun v hb hc => absurd hb.2.2.1 (not_le.2 hc))
+    · exact key _ (conv_lt_y box.hi.y) h (fun v hb hc => absurd hb.2.2.2 (not_le.2 hc))
 
 theorem ring_closed' (box : Bound α) (inp out : List (Pt α)) (hc : ClosedRing inp) (h : ring box inp = some out)
     (hne : out ≠ []) : ClosedRing out := by
-  sorry
+  obtain ⟨hn, hhl⟩ := hc
+  cases inp with
+  | nil => exact absurd rfl hn
+  | cons f t =>
+    rw [ring_cons_eq] at h
+    have hic : ptEqB f ((f :: t).getLast?.getD f) = true := by
+      rw [ptEqB_iff, ← hhl]; rfl
+    rw [hic] at h
+    exact rclose_closed _ out h hne
+
+theorem polygon_fold (box : Bound α) (holes : List (List (Pt α))) (hs : List (List (Pt α)))
+    (hm : holes.mapM (ring box) = some hs) (pre : List (List (Pt α))) :
+    holes.foldl (fun acc h => match acc, ring box h with
+        | some res, some [] => some res
+        | some res, some h' => some (res ++ [h'])
+        | _, _ => none) (some pre) = some (pre ++ hs.filter (· ≠ [])) := by
+  induction holes generalizing hs pre with
+  | nil =>
+    simp at hm; subst hm; simp
+  | cons h t ih =>
+    rw [List.mapM_cons] at hm
+    cases hr : ring box h with
+    | none => simp [hr] at hm
+    | some r =>
+      cases ht : t.mapM (ring box) with
+      | none => simp [hr, ht] at hm
+      | some ts =>
+        simp [hr, ht] at hm
+        subst hm
+        rw [List.foldl_cons, hr]
+        cases r with
+        | nil => simp only []; rw [ih ts ht]; simp
+        | cons a r' => simp only []; rw [ih ts ht]; simp
+
+theorem mapM_ring_total (box : Bound α) (holes : List (List (Pt α))) :
+    ∃ hs, holes.mapM (ring box) = some hs := by
+  induction holes with
+  | nil => exact ⟨[], by simp⟩
+  | cons h t ih =>
+    obtain ⟨r, hr⟩ := ring_total' box h
+    obtain ⟨ts, ht⟩ := ih
+    exact ⟨r :: ts, by rw [List.mapM_cons, hr, ht]; rfl⟩
 
 theorem polygon_spec' (box : Bound α) (outer : List (Pt α)) (holes : List (List (Pt α))) :
     ∃ o hs, ring box outer = some o ∧ holes.mapM (ring box) = some hs ∧
       polygon box (outer :: holes) = some (if o = [] then [] else o :: hs.filter (· ≠ [])) := by
-  sorry
+  obtain ⟨o, ho⟩ := ring_total' box outer
+  obtain ⟨hs, hhs⟩ := mapM_ring_total box holes
+  refine ⟨o, hs, ho, hhs, ?_⟩
+  simp only [polygon, ho]
+  cases o with
+  | nil => simp
+  | cons a o' =>
+    simp only []
+    refine (polygon_fold box holes hs hhs [a :: o']).trans ?_
+    simp
 
 theorem clipBound_is_intersection' (b c : Bound α) (hb : b.isEmpty = false) (hc : c.isEmpty = false) (p : Pt α) :
     InBox (clipBound b c) p ↔ (InBox b p ∧ InBox c p) := by
-  sorry
+  simp only [clipBound, hb, hc, Bool.and_self, Bool.false_eq_true, if_false, InBox, max_le_iff, le_min_iff]
+  tauto
+
+/-! ### the generic entry point -/
+
+/-- structural induction for the nested inductive `Geom` -/
+theorem geom_ind {β : Type} {motive : Geom β → Prop}
+    (h1 : ∀ p, motive (.point p)) (h2 : ∀ ps, motive (.multiPoint ps))
+    (h3 : ∀ ps, motive (.lineString ps)) (h4 : ∀ ls, motive (.multiLineString ls))
+    (h5 : ∀ ps, motive (.ring ps)) (h6 : ∀ rs, motive (.polygon rs))
+    (h7 : ∀ ps, motive (.multiPolygon ps)) (h8 : ∀ a b, motive (.bound a b))
+    (hc : ∀ gs, (∀ g ∈ gs, motive g) → motive (.collection gs)) : ∀ g, motive g := by
+  intro g
+  refine Geom.rec (motive_1 := motive) (motive_2 := fun gs => ∀ g ∈ gs, motive g)
+    h1 h2 h3 h4 h5 h6 h7 h8 hc ?_ ?_ g
+  · intro g hg; cases hg
+  · intro head tail hh ht g hg
+    rcases List.mem_cons.1 hg with rfl | hg
+    · exact hh
+    · exact ht g hg
+
+/-- the call returns, and whatever geometry it returns has all its vertices in the box -/
+def Good (box : Bound α) (res : Option (Option (Geom α))) : Prop :=
+  ∃ r, res = some r ∧ ∀ g', r = some g' → ∀ v ∈ gverts g', InBox box v
+
+theorem good_nil (box : Bound α) : Good box (some none) := ⟨none, rfl, by simp⟩
+
+theorem good_some (box : Bound α) (g : Geom α) (h : ∀ v ∈ gverts g, InBox box v) :
+    Good box (some (some g)) := ⟨some g, rfl, by rintro g' ⟨⟩; exact h⟩
+
+theorem good_pre (box : Bound α) (c : Bool) (X : Option (Option (Geom α))) (h : c = true → Good box X) :
+    Good box (if (!c) = true then some none else X) := by
+  cases c with
+  | false => simpa using good_nil box
+  | true => simpa using h rfl
+
+theorem contains_inBox (box : Bound α) (p : Pt α) (h : box.contains p = true) : InBox box p := by
+  simp only [Bound.contains] at h
+  split_ifs at h with h1 h2
+  rw [not_or, not_lt, not_lt] at h1 h2
+  exact ⟨h2.1, h2.2, h1.1, h1.2⟩
+
+theorem intersects_pt_inBox (box : Bound α) (p : Pt α) (h : box.intersects ⟨p, p⟩ = true) : InBox box p := by
+  simp only [Bound.intersects] at h
+  split_ifs at h with h1
+  simp only [not_or, not_lt, gt_iff_lt] at h1
+  exact ⟨h1.2.1, h1.1, h1.2.2.2, h1.2.2.1⟩
+
+theorem clipBound_in (box c : Bound α) (hb : BoxOK box) (hne : (clipBound box c).isEmpty = false) :
+    InBox box (clipBound box c).lo ∧ InBox box (clipBound box c).hi := by
+  have hbe : box.isEmpty = false := by
+    simp only [Bound.isEmpty, decide_eq_false_iff_not, gt_iff_lt, not_or, not_lt]
+    exact ⟨hb.1.le, hb.2.le⟩
+  cases hce : c.isEmpty with
+  | true =>
+    simp only [clipBound, hbe, hce, Bool.false_and, Bool.false_eq_true, if_false, if_true]
+    exact ⟨⟨le_refl _, hb.1.le, le_refl _, hb.2.le⟩, ⟨hb.1.le, le_refl _, hb.2.le, le_refl _⟩⟩
+  | false =>
+    simp only [clipBound, hbe, hce, Bool.false_and, Bool.false_eq_true, if_false] at hne ⊢
+    simp only [Bound.isEmpty, decide_eq_false_iff_not, gt_iff_lt, not_or, not_lt] at hne
+    obtain ⟨hx, hy⟩ := hne
+    refine ⟨⟨le_max_left _ _, hx.trans (min_le_left _ _), le_max_left _ _, hy.trans (min_le_left _ _)⟩,
+      ⟨(le_max_left _ _).trans hx, min_le_left _ _, (le_max_left _ _).trans hy, min_le_left _ _⟩⟩
+
+/-- the "drop the empty ones" fold shared by `polygon` and `multiPolygon`, with the step function
+    abstracted (the `match` of the model is characterised by `hF`) -/
+theorem fold_skip {β γ : Type} (f : β → Option (List γ)) (P : List γ → Prop)
+    (F : Option (List (List γ)) → β → Option (List (List γ)))
+    (hF : ∀ res x y, f x = some y → F (some res) x = some (if y.isEmpty then res else res ++ [y]))
+    (hf : ∀ x, ∃ y, f x = some y ∧ (y ≠ [] → P y)) (l : List β) :
+    ∀ r0 : List (List γ), (∀ y ∈ r0, P y) →
+    ∃ out, l.foldl F (some r0) = some out ∧ ∀ y ∈ out, P y := by
+  induction l with
+  | nil => intro r0 h0; exact ⟨r0, rfl, h0⟩
+  | cons x t ih =>
+    intro r0 h0
+    obtain ⟨y, hy, hP⟩ := hf x
+    rw [List.foldl_cons, hF r0 x y hy]
+    cases y with
+    | nil => exact ih r0 h0
+    | cons a y' =>
+      refine ih (r0 ++ [a :: y']) ?_
+      intro z hz
+      rcases List.mem_append.1 hz with hz | hz
+      · exact h0 z hz
+      · simp at hz; subst hz; exact hP (by simp)
+
+theorem polygon_ok (box : Bound α) (hb : BoxOK box) (p : List (List (Pt α))) :
+    ∃ out, polygon box p = some out ∧ ∀ r ∈ out, ∀ v ∈ r, InBox box v := by
+  cases p with
+  | nil => exact ⟨[], rfl, by simp⟩
+  | cons outer holes =>
+    obtain ⟨o, ho⟩ := ring_total' box outer
+    have hin := ring_vertices_in_box' box hb outer o ho
+    simp only [polygon, ho]
+    cases o with
+    | nil => exact ⟨[], rfl, by simp⟩
+    | cons a o' =>
+      simp only []
+      refine fold_skip (ring box) (fun r => ∀ v ∈ r, InBox box v) _ ?_
+        (fun h => by
+          obtain ⟨y, hy⟩ := ring_total' box h
+          exact ⟨y, hy, fun _ => ring_vertices_in_box' box hb h y hy⟩) holes [a :: o']
+        (by intro y hy; simp at hy; subst hy; exact hin)
+      intro res x y hy
+      simp only [hy]
+      cases y <;> rfl
+
+theorem multiPolygon_ok (box : Bound α) (hb : BoxOK box) (mp : List (List (List (Pt α)))) :
+    ∃ out, multiPolygon box mp = some out ∧ ∀ p ∈ out, ∀ r ∈ p, ∀ v ∈ r, InBox box v := by
+  unfold multiPolygon
+  refine fold_skip (polygon box) (fun p => ∀ r ∈ p, ∀ v ∈ r, InBox box v) _ ?_
+    (fun p => by
+      obtain ⟨y, hy, hP⟩ := polygon_ok box hb p
+      exact ⟨y, hy, fun _ => hP⟩) mp [] (by simp)
+  intro res x y hy
+  simp only [hy]
+  cases y <;> rfl
+
+theorem fold_lines (box : Bound α) (hb : BoxOK box)
+    (F : Option (List (List (Pt α))) → List (Pt α) → Option (List (List (Pt α))))
+    (hF : ∀ r l x, line box false l = some x → F (some r) l = some (r ++ x))
+    (ls : List (List (Pt α))) :
+    ∀ r0 : List (List (Pt α)), (∀ piece ∈ r0, ∀ v ∈ piece, InBox box v) →
+    ∃ out, ls.foldl F (some r0) = some out ∧ ∀ piece ∈ out, ∀ v ∈ piece, InBox box v := by
+  induction ls with
+  | nil => intro r0 h0; exact ⟨r0, rfl, h0⟩
+  | cons l t ih =>
+    intro r0 h0
+    obtain ⟨x, hx⟩ := line_total' box hb false l
+    have hP := clip_vertices_in_box' box hb false l x hx
+    rw [List.foldl_cons, hF r0 l x hx]
+    refine ih (r0 ++ x) ?_
+    intro z hz
+    rcases List.mem_append.1 hz with hz | hz
+    · exact h0 z hz
+    · exact hP z hz
+
+theorem multiLineString_ok (box : Bound α) (hb : BoxOK box) (ls : List (List (Pt α))) :
+    ∃ out, multiLineString box false ls = some out ∧ ∀ piece ∈ out, ∀ v ∈ piece, InBox box v := by
+  unfold multiLineString
+  refine fold_lines box hb _ ?_ ls [] (by simp)
+  intro r l x hx
+  simp only [hx]
+
+theorem collect_ok (eb box : Bound α) (gs : List (Geom α))
+    (ih : ∀ g ∈ gs, Good box (geometry eb box g)) :
+    ∃ l, geometry.collect eb box gs = some l ∧ ∀ g' ∈ l, ∀ v ∈ gverts g', InBox box v := by
+  induction gs with
+  | nil => exact ⟨[], by simp [geometry.collect], by simp⟩
+  | cons g rest ihr =>
+    obtain ⟨r, hr, hg⟩ := ih g List.mem_cons_self
+    obtain ⟨l, hl, hlP⟩ := ihr (fun g' hg' => ih g' (List.mem_cons_of_mem _ hg'))
+    simp only [geometry.collect, hr, hl]
+    cases r with
+    | none => exact ⟨l, rfl, hlP⟩
+    | some c =>
+      refine ⟨c :: l, rfl, ?_⟩
+      intro g' hg'
+      rcases List.mem_cons.1 hg' with rfl | hg'
+      · exact hg _ rfl
+      · exact hlP g' hg'
+
+theorem geometry_good (eb box : Bound α) (hb : BoxOK box) (g : Geom α) : Good box (geometry eb box g) := by
+  induction g using geom_ind with
+  | h1 p =>
+    simp only [geometry]
+    apply good_pre
+    intro hi
+    apply good_some
+    simp only [Core.bound] at hi
+    simp only [gverts, List.mem_singleton]
+    rintro v rfl
+    exact intersects_pt_inBox box v hi
+  | h2 ps =>
+    simp only [geometry]
+    apply good_pre
+    intro _
+    have hall : ∀ v ∈ multiPoint box ps, InBox box v := by
+      intro v hv
+      simp only [multiPoint, List.mem_filter] at hv
+      exact contains_inBox box v hv.2
+    generalize multiPoint box ps = l at hall
+    match l, hall with
+    | [], _ => exact good_nil box
+    | [p], hall => exact good_some box _ (by simpa [gverts] using hall)
+    | p :: q :: t, hall => exact good_some box _ (by simpa only [gverts] using hall)
+  | h3 ps =>
+    simp only [geometry]
+    apply good_pre
+    intro _
+    obtain ⟨out, ho⟩ := line_total' box hb false ps
+    have hP := clip_vertices_in_box' box hb false ps out ho
+    rw [ho]
+    match out, hP with
+    | [], _ => exact good_nil box
+    | [l], hP => exact good_some box _ (by simpa [gverts] using hP)
+    | l :: m :: t, hP =>
+      refine good_some box _ ?_
+      intro v hv
+      simp only [gverts, List.mem_flatten] at hv
+      obtain ⟨piece, hp, hv⟩ := hv
+      exact hP piece hp v hv
+  | h4 ls =>
+    simp only [geometry]
+    apply good_pre
+    intro _
+    obtain ⟨out, ho, hP⟩ := multiLineString_ok box hb ls
+    rw [ho]
+    match out, hP with
+    | [], _ => exact good_nil box
+    | [l], hP => exact good_some box _ (by simpa [gverts] using hP)
+    | l :: m :: t, hP =>
+      refine good_some box _ ?_
+      intro v hv
+      simp only [gverts, List.mem_flatten] at hv
+      obtain ⟨piece, hp, hv⟩ := hv
+      exact hP piece hp v hv
+  | h5 r =>
+    simp only [geometry]
+    apply good_pre
+    intro _
+    obtain ⟨out, ho⟩ := ring_total' box r
+    have hP := ring_vertices_in_box' box hb r out ho
+    rw [ho]
+    match out, hP with
+    | [], _ => exact good_nil box
+    | a :: t, hP => exact good_some box _ (by simpa only [gverts] using hP)
+  | h6 p =>
+    simp only [geometry]
+    apply good_pre
+    intro _
+    obtain ⟨out, ho, hP⟩ := polygon_ok box hb p
+    rw [ho]
+    match out, hP with
+    | [], _ => exact good_nil box
+    | a :: t, hP =>
+      refine good_some box _ ?_
+      intro v hv
+      simp only [gverts, List.mem_flatten] at hv
+      obtain ⟨r, hr, hv⟩ := hv
+      exact hP r hr v hv
+  | h7 mp =>
+    simp only [geometry]
+    apply good_pre
+    intro _
+    obtain ⟨out, ho, hP⟩ := multiPolygon_ok box hb mp
+    rw [ho]
+    match out, hP with
+    | [], _ => exact good_nil box
+    | [p], hP =>
+      refine good_some box _ ?_
+      intro v hv
+      simp only [gverts, List.mem_flatten] at hv
+      obtain ⟨r, hr, hv⟩ := hv
+      exact hP p (by simp) r hr v hv
+    | p :: q :: t, hP =>
+      refine good_some box _ ?_
+      intro v hv
+      simp only [gverts, List.mem_flatten] at hv
+      obtain ⟨r, ⟨pp, hpp, hr⟩, hv⟩ := hv
+      exact hP pp hpp r hr v hv
+  | h8 a b =>
+    simp only [geometry]
+    apply good_pre
+    intro _
+    cases he : (clipBound box ⟨a, b⟩).isEmpty with
+    | true => simpa using good_nil box
+    | false =>
+      obtain ⟨h1, h2⟩ := clipBound_in box ⟨a, b⟩ hb he
+      simp only [Bool.false_eq_true, if_false]
+      refine good_some box _ ?_
+      intro v hv
+      simp only [gverts, List.mem_cons, List.not_mem_nil, or_false] at hv
+      rcases hv with rfl | rfl
+      · exact h1
+      · exact h2
+  | hc gs ih =>
+    simp only [geometry]
+    apply good_pre
+    intro _
+    obtain ⟨l, hl, hP⟩ := collect_ok eb box gs ih
+    rw [hl]
+    match l, hP with
+    | [], _ => exact good_nil box
+    | [g], hP => exact good_some box _ (hP g (by simp))
+    | g :: h :: t, hP =>
+      refine good_some box _ ?_
+      intro v hv
+      simp only [gverts, List.mem_flatMap] at hv
+      obtain ⟨g', hg', hv⟩ := hv
+      exact hP g' hg' v hv
 
 theorem geometry_total' (eb box : Bound α) (hb : BoxOK box) (g : Geom α) : ∃ r, geometry eb box g = some r := by
-  sorry
+  obtain ⟨r, hr, -⟩ := geometry_good eb box hb g
+  exact ⟨r, hr⟩
 
 theorem geometry_vertices_in_box' (eb box : Bound α) (hb : BoxOK box) (g r : Geom α)
     (h : geometry eb box g = some (some r)) : ∀ v ∈ gverts r, InBox box v := by
-  sorry
+  obtain ⟨r', hr, hP⟩ := geometry_good eb box hb g
+  rw [h] at hr
+  cases hr
+  exact hP r rfl
 
 theorem ring_witness' : ring (⟨⟨0, 0⟩, ⟨2, 2⟩⟩ : Bound ℚ) [⟨1, 1⟩, ⟨3, 1⟩, ⟨3, 3⟩, ⟨1, 3⟩, ⟨1, 1⟩] =
     some [⟨1, 1⟩, ⟨2, 1⟩, ⟨2, 2⟩, ⟨1, 2⟩, ⟨1, 1⟩] := by
-  sorry
+  have hic : ptEqB (⟨1, 1⟩ : Pt ℚ)
+      (([⟨1, 1⟩, ⟨3, 1⟩, ⟨3, 3⟩, ⟨1, 3⟩, ⟨1, 1⟩] : List (Pt ℚ)).getLast?.getD ⟨1, 1⟩) = true := by
+    rw [ptEqB_iff]; rfl
+  rw [ring_cons_eq, hic]
+  have p1 : rpass (⟨⟨0, 0⟩, ⟨2, 2⟩⟩ : Bound ℚ) true 1 (some [⟨1, 1⟩, ⟨3, 1⟩, ⟨3, 3⟩, ⟨1, 3⟩, ⟨1, 1⟩]) =
+      some [⟨1, 1⟩, ⟨3, 1⟩, ⟨3, 3⟩, ⟨1, 3⟩, ⟨1, 1⟩] := by
+    simp only [rpass]
+    rw [ringPass_eq _ 1 _ (intersect_1 _)]
+    simp [passL, emit, ins_1m]
+  rw [p1]
+  have p2 : rpass (⟨⟨0, 0⟩, ⟨2, 2⟩⟩ : Bound ℚ) true 2 (some [⟨1, 1⟩, ⟨3, 1⟩, ⟨3, 3⟩, ⟨1, 3⟩, ⟨1, 1⟩]) =
+      some [⟨1, 1⟩, ⟨2, 1⟩, ⟨2, 3⟩, ⟨1, 3⟩, ⟨1, 1⟩] := by
+    simp only [rpass]
+    rw [ringPass_eq _ 2 _ (intersect_2 _)]
+    simp [passL, emit, ins_2']
+    norm_num
+  rw [p2]
+  have p3 : rpass (⟨⟨0, 0⟩, ⟨2, 2⟩⟩ : Bound ℚ) true 4 (some [⟨1, 1⟩, ⟨2, 1⟩, ⟨2, 3⟩, ⟨1, 3⟩, ⟨1, 1⟩]) =
+      some [⟨1, 1⟩, ⟨2, 1⟩, ⟨2, 3⟩, ⟨1, 3⟩, ⟨1, 1⟩] := by
+    simp only [rpass]
+    rw [ringPass_eq _ 4 _ (intersect_4 _)]
+    simp [passL, emit, ins_4']
+  rw [p3]
+  have p4 : rpass (⟨⟨0, 0⟩, ⟨2, 2⟩⟩ : Bound ℚ) true 8 (some [⟨1, 1⟩, ⟨2, 1⟩, ⟨2, 3⟩, ⟨1, 3⟩, ⟨1, 1⟩]) =
+      some [⟨1, 1⟩, ⟨2, 1⟩, ⟨2, 2⟩, ⟨1, 2⟩, ⟨1, 1⟩] := by
+    simp only [rpass]
+    rw [ringPass_eq _ 8 _ (intersect_8 _)]
+    simp [passL, emit, ins_8']
+    norm_num
+  rw [p4]
+  simp [rclose, ptEqB]
 
 end Orb.Clip
